@@ -384,7 +384,7 @@ func alphabet(peers []string) []Event {
 func main() {
 	res = vlib.Parse()
 	res.Part = "admission"
-	res.Rule = "breadth-first search over event histories (joined, accept, left per receiver a,b,c; success/failure of the oldest/newest in-flight transfer; cleanup tick with the clock advanced by 0 or TTL+1) on the real SnapshotSender for max-receivers 1 and 2, each event run to quiescence under the controlled scheduler, states deduplicated by the canonical form of the real object; non-trivial = distinct canonical state"
+	res.Rule = "breadth-first search over event histories (joined, accept, left per receiver a,b,c; success/failure of the oldest/newest in-flight transfer; cleanup tick with the clock advanced by 0 or TTL+1; and, from the state in which four receivers a-d have joined, accept / left / finish only) on the real SnapshotSender for max-receivers 1 and 2, each event run to quiescence under the controlled scheduler, states deduplicated by the canonical form of the real object; non-trivial = distinct canonical state"
 	if vlib.F.Replay != "" {
 		var art struct {
 			Violation struct {
@@ -416,20 +416,41 @@ func main() {
 		budget = 28 * time.Minute
 	}
 	deadline := time.Now().Add(budget)
-	peers := []string{"a", "b", "c"}
-	alpha := alphabet(peers)
+	// Configurations: the full alphabet over three receivers for max-receivers 1 and 2, and a
+	// fourth receiver (a waiting line of up to three) from the state "all four have joined" with
+	// the accept / leave / finish events only.
+	type conf struct {
+		max   int
+		root  []Event
+		alpha []Event
+		depth int
+		pairs bool
+	}
+	alpha3 := alphabet([]string{"a", "b", "c"})
+	var alpha4 []Event
+	var root4 []Event
+	for _, p := range []string{"a", "b", "c", "d"} {
+		root4 = append(root4, Event{Kind: "joined", Peer: p})
+		alpha4 = append(alpha4, Event{Kind: "accept", Peer: p}, Event{Kind: "left", Peer: p})
+	}
+	alpha4 = append(alpha4, Event{Kind: "ok", Nth: 0}, Event{Kind: "fail", Nth: 0})
+	confs := []conf{{1, nil, alpha3, maxDepth, true}, {2, nil, alpha3, maxDepth, true}, {1, root4, alpha4, maxDepth - 1, false}, {2, root4, alpha4, maxDepth - 2, false}}
 	var states, trans int64
 	cut := false
-	for mi, max := range []int{1, 2} {
+	for mi, cf := range confs {
 		if !vlib.Mine(mi) {
 			continue
 		}
+		max, alpha, maxDepth := cf.max, cf.alpha, cf.depth
 		seen := map[string]bool{}
 		type node struct{ hist []Event }
-		frontier := []node{{nil}}
-		pairRoots := []node{{nil}}
+		frontier := []node{{cf.root}}
+		pairRoots := []node{{cf.root}}
+		if !cf.pairs {
+			pairRoots = nil
+		}
 		var w0 *world
-		vrt.Run(cfg(), nil, func() { w0, _ = runHistory(max, nil) })
+		vrt.Run(cfg(), nil, func() { w0, _ = runHistory(max, cf.root) })
 		seen[w0.canon()] = true
 		states++
 		for depth := 0; depth < maxDepth && len(frontier) > 0 && !cut; depth++ {
@@ -459,7 +480,7 @@ func main() {
 						states++
 						res.Nontrivial(fmt.Sprintf("%d|%s", max, k))
 						next = append(next, node{hist})
-						if len(hist) <= pairDepth {
+						if cf.pairs && len(hist) <= pairDepth {
 							pairRoots = append(pairRoots, node{hist})
 						}
 						res.SampleSpread(states, map[string]any{"max_receivers": max, "history": histStr(hist), "state": k})
@@ -467,7 +488,7 @@ func main() {
 				}
 			}
 			frontier = next
-			res.Extra[fmt.Sprintf("max%d_depth%d_new_states", max, depth+1)] = float64(len(next))
+			res.Extra[fmt.Sprintf("conf%d_max%d_depth%d_new_states", mi, max, depth+1)] = float64(len(next))
 		}
 		// Concurrent pairs: from every state up to pairDepth, a transfer returns (its goroutine tail
 		// drops and re-takes the lock mid-update) while a handler event is delivered; all
@@ -512,7 +533,7 @@ func main() {
 			}
 		}
 		res.EvalN(pairExecs)
-		res.Extra[fmt.Sprintf("max%d_concurrent_pair_executions", max)] = float64(pairExecs)
+		res.Extra[fmt.Sprintf("conf%d_max%d_concurrent_pair_executions", mi, max)] = float64(pairExecs)
 	}
 	res.States = states
 	res.Trans = trans
